@@ -492,7 +492,7 @@ pub fn replay_c14(case: &Value) -> Report {
     r
 }
 
-pub const RULE_C14: &str = "seeded random histories of 0..12 (every 16th: 0..60) set_claim/remove_claim/extend_claims operations on GenericBuilder (20000 on v4.local, 250-1500 on each other protocol; thorough 2e6 / 1e4-1.5e5) plus a fixed corner catalogue: keys = non-empty Unicode (escapes, NUL, non-BMP, 200-byte keys, near-reserved names, keys equal to a member name inside their own value, 255/256/257/1000 (thorough 70000) claims on one builder, and ~45 pairs of different keys that collide under FNV-1/1a, the 31-multiplier hash, djb2, CRC-32, byte sums, truncation to 8..256 bytes or to u8/u16 characters, NFC/NFD, embedded NUL); values = JSON trees of depth <= 5 (i64/u64 extremes, exact short decimals, empty containers, null), native Rust values through Serialize (structs, tuples, Option, Vec, BTreeMap, enums, char, bytes) and registered claims through their typed constructors; the token is parsed back with a validator-free GenericParser and the whole object compared (serde_json equality) with a model map (last write wins, remove deletes) built by the harness. Plus multi-build histories (1500 on v4.local, 30-150 elsewhere; thorough 4e4): ONE GenericBuilder is driven through 3-17 set/remove/footer/assertion/build steps and EVERY token it emits must equal the model at that point. distinct_nontrivial = distinct (protocol, #ops, #sets, #members, value-shape signature) that built, parsed and compared equal";
+pub const RULE_C14: &str = "seeded random histories of 0..12 (every 16th: 0..60) set_claim/remove_claim/extend_claims operations on GenericBuilder (20000 on v4.local, 250-1500 on each other protocol; thorough 2e6 / 1e4-1.5e5) plus a fixed corner catalogue: keys = non-empty Unicode (escapes, NUL, non-BMP, 200-byte keys, near-reserved names, keys equal to a member name inside their own value, 255/256/257/1000 (thorough 70000) claims on one builder, and ~45 pairs of different keys that collide under FNV-1/1a, the 31-multiplier hash, djb2, CRC-32, byte sums, truncation to 8..256 bytes or to u8/u16 characters, NFC/NFD, embedded NUL); values = JSON trees of depth <= 5 (i64/u64 extremes, exact short decimals, empty containers, null), native Rust values through Serialize (structs, tuples, Option, Vec, BTreeMap, enums, char, bytes) and registered claims through their typed constructors; the token is parsed back with a validator-free GenericParser and the whole object compared (serde_json equality) with a model map (last write wins, remove deletes) built by the harness. Plus multi-build histories (1500 on v4.local, 30-150 elsewhere; thorough 4e4): ONE GenericBuilder is driven through 3-17 set/remove/footer/assertion/build steps and EVERY token it emits must equal the model at that point. distinct_nontrivial = distinct (protocol, #ops, #sets, #members, value-shape signature) that built, parsed and compared equal; every fourth token is also parsed through parsers carrying accepting validators (also for absent claims), a matching expectation, and PasetoParser::default(): a successful parse must return exactly the claims set";
 
 // ==========================================================================================
 // C15
@@ -1148,7 +1148,7 @@ pub fn replay_c15(case: &Value) -> Report {
     r
 }
 
-pub const RULE_C15: &str = "for seeded random token claim sets S (registered string claims, integers, booleans, nested JSON, strings) the expected sets E = {equal, random subset, superset with one absent claim, one value changed (case / trailing space / NUL suffix / one byte longer / extended or shortened by exactly 256, 512, 65536 bytes / type / off-by-one / a float changed only beyond single precision / fraction / negation / extra element; time claims: another instant and the same instant or second spelled differently), one key changed by one character, expected value on a claim that is present as null, integer-vs-float spelling (don't-care)} are registered with check_claim (and, on GenericParser, also through one extend_check_claims call) on GenericParser, PasetoParser::new() and PasetoParser::default() and the authentic token is parsed; oracle = harness-side comparison of S and E: accept iff no discrepancy; a missing-only discrepancy must be reported as Missing(k) for a missing k; an error must name a failing claim. Plus 500 (thorough 5000) histories: one parser processes 8 tokens in 4 orders and every outcome must equal the fresh-parser outcome. Plus sessions in which the expectation for a key is REPLACED on a live parser between parses (check_claim again with another value), and 160 (thorough 2000) NESTED pairs of such sessions (a second parser with other expectations is created, used and dropped in the middle of the first one's life on the same thread). Plus PasetoParser::default().check_claim(exp|nbf) as its own class. Plus payloads as another implementation writes them (2.5e3 / 1.50 / 1E2 / \\u0061 spellings must match the JSON-equal expectation; objects that merely look like serde_json's private number / raw-value encodings are objects and do not match a number or string). Plus an expectation on a key that also has a tolerant validator (a harness one, or the default parser's own exp/nbf validators) against a token that lacks the claim: still refused as missing. Plus authentic tokens whose payload is valid JSON but not an object (sealed at the core layer: [], \"aud\", 137, true, null, ...): every expectation must fail. Token claim keys include path/pointer look-alikes ('a/b' next to a nested a.b, 'https://example.com/role', '~0', 'a[0]'). distinct_nontrivial = distinct (protocol, parser kind, outcome, expectation class, error variant)";
+pub const RULE_C15: &str = "for seeded random token claim sets S (registered string claims, integers, booleans, nested JSON, strings) the expected sets E = {equal, random subset, superset with one absent claim, one value changed (case / trailing space / NUL suffix / one byte longer / extended or shortened by exactly 256, 512, 65536 bytes / type / off-by-one / a float changed only beyond single precision / fraction / negation / extra element; time claims: another instant and the same instant or second spelled differently), one key changed by one character, expected value on a claim that is present as null, integer-vs-float spelling (don't-care)} are registered with check_claim (and, on GenericParser, also through one extend_check_claims call) on GenericParser, PasetoParser::new() and PasetoParser::default() and the authentic token is parsed; oracle = harness-side comparison of S and E: accept iff no discrepancy; a missing-only discrepancy must be reported as Missing(k) for a missing k; an error must name a failing claim. Plus 500 (thorough 5000) histories: one parser processes 8 tokens in 4 orders and every outcome must equal the fresh-parser outcome. Plus sessions in which the expectation for a key is REPLACED on a live parser between parses (check_claim again with another value), and 160 (thorough 2000) NESTED pairs of such sessions (a second parser with other expectations is created, used and dropped in the middle of the first one's life on the same thread). Plus PasetoParser::default().check_claim(exp|nbf) as its own class. Plus payloads as another implementation writes them (2.5e3 / 1.50 / 1E2 / \\u0061 spellings must match the JSON-equal expectation; objects that merely look like serde_json's private number / raw-value encodings are objects and do not match a number or string). Plus an expectation on a key that also has a tolerant validator (a harness one, or the default parser's own exp/nbf validators) against a token that lacks the claim: still refused as missing. Plus authentic tokens whose payload is valid JSON but not an object (sealed at the core layer: [], \"aud\", 137, true, null, ...): every expectation must fail. Token claim keys include path/pointer look-alikes ('a/b' next to a nested a.b, 'https://example.com/role', '~0', 'a[0]'). distinct_nontrivial = distinct (protocol, parser kind, outcome, expectation class, error variant); plus several expectations registered AT ONCE (one extend_check_claims call with more entries than the parser holds) replacing earlier ones, and member names only another implementation can emit (empty, NUL, quote, BOM, 300 characters)";
 
 // ==========================================================================================
 // C16
@@ -1793,4 +1793,4 @@ pub fn replay_c16(rec: &Value, case: &Value) -> Report {
     r
 }
 
-pub const RULE_C16: &str = "harness validators are static functions that append (key, value) to a thread-local call log and answer from a behaviour table (accept / reject / accept-iff-equal / accept-iff-present). For seeded random token claim sets, 0-3 validators over registered and custom keys (present and absent in the payload) are registered through validate_claim (every fifth time with a USER-DEFINED claim type that only names the key and serialises as a unit, a string or an object without / with more than that member) and, on GenericParser, through extend_validation_claims only; parsers: GenericParser, PasetoParser::new(), PasetoParser::default(). Each configuration parses either the authentic token or a forgery (wrong key, wrong footer, wrong assertion, relabelled header, bit flip, truncation). Monitors: no log entry for a forged token; for an authentic token every logged value equals the payload member (null when absent), each key at most once, Ok only if every registered validator ran and accepts, Err only if a validator or expectation fails, and the error stems from a rejecting validator. Plus large tokens (5 000 / 9 000 / 17 000-byte messages) with one bit flipped near the end of the body: no validator may be invoked. Plus 300 (thorough 3000) sequences where one parser processes shuffled authentic and forged tokens; 400 (thorough 4000) LIVE-parser sessions in which validators are added (validate_claim / extend_validation_claims) between parses of one parser object and every validator registered so far must run and be honoured on the next parse, incl. a second, distinguishable validator registered for a key that already has one (on the default parser: replacing the built-in exp validator) — the last registration runs and is honoured; authentic tokens whose payload is JSON but not an object (sealed at the core layer): validators still run, with null. distinct_nontrivial = distinct (protocol, parser kind, authentic|forgery kind, outcome, #validators, #rejecting, registration routes)";
+pub const RULE_C16: &str = "harness validators are static functions that append (key, value) to a thread-local call log and answer from a behaviour table (accept / reject / accept-iff-equal / accept-iff-present). For seeded random token claim sets, 0-3 validators over registered and custom keys (present and absent in the payload) are registered through validate_claim (every fifth time with a USER-DEFINED claim type that only names the key and serialises as a unit, a string or an object without / with more than that member) and, on GenericParser, through extend_validation_claims only; parsers: GenericParser, PasetoParser::new(), PasetoParser::default(). Each configuration parses either the authentic token or a forgery (wrong key, wrong footer, wrong assertion, relabelled header, bit flip, truncation). Monitors: no log entry for a forged token; for an authentic token every logged value equals the payload member (null when absent), each key at most once, Ok only if every registered validator ran and accepts, Err only if a validator or expectation fails, and the error stems from a rejecting validator. Plus large tokens (5 000 / 9 000 / 17 000-byte messages) with one bit flipped near the end of the body: no validator may be invoked. Plus 300 (thorough 3000) sequences where one parser processes shuffled authentic and forged tokens; 400 (thorough 4000) LIVE-parser sessions in which validators are added (validate_claim / extend_validation_claims) between parses of one parser object and every validator registered so far must run and be honoured on the next parse, incl. a second, distinguishable validator registered for a key that already has one (on the default parser: replacing the built-in exp validator) — the last registration runs and is honoured; authentic tokens whose payload is JSON but not an object (sealed at the core layer): validators still run, with null. distinct_nontrivial = distinct (protocol, parser kind, authentic|forgery kind, outcome, #validators, #rejecting, registration routes); plus argument-change sessions (the same token text under its own key, another key, after footer/assertion changes, after they are set to the empty string and set again: a refused presentation must leave the validator log empty); registered claim types are handed to validate_claim as X::default() every other time";
